@@ -156,7 +156,7 @@ impl Property for C18 {
     fn runs(&self, tier: Tier) -> u64 {
         match tier {
             Tier::Quick => 1_500,
-            Tier::Thorough => 60_000,
+            Tier::Thorough => 1_500_000,
         }
     }
     fn assumptions(&self) -> Vec<&'static str> {
